@@ -1,11 +1,12 @@
 /-
-  C04/Early — driver part for the early-error / syntax table requests.
-    early <expect> <region|-> <srchex>
-  `expect` (accept|reject) is what ES5 demands for the template (the clause is cited next to each template in
-  harness/cmd/c04/early.go); for templates inside a listed deviation region the recorded behaviour of otto is the
-  opposite answer.  There is no Lean model of the statement parser behind this stream: it is a table.
+  C04/Early — driver part for the early-error requests.
+    early2 <stmt-tree>               the Lean model (`accepts`) and specification (`earlyOK`) decide; dev = `devCont`
+    early <expect> <region|-> <src>  the residual hand table for syntax that is not in the statement-tree model
+                                     (`expect` = what ES5 demands, clause cited in harness/cmd/c04/early.go)
 -/
+import OttoVerif.C04.EarlySpec
 namespace OttoVerif.C04.Early
+open OttoVerif.C04
 
 def flip : String → String
   | "accept" => "reject"
@@ -17,6 +18,56 @@ def handle (ws : List String) : String :=
     if expect = "accept" ∨ expect = "reject" then
       (if region = "-" then expect else flip expect) ++ " " ++ expect ++ " " ++ region
     else "bad-request bad-request -"
+  | _ => "bad-request bad-request -"
+
+def loopKind? : String → Option LoopKind
+  | "while" => some .while_ | "dowhile" => some .doWhile | "for" => some .for_ | "forin" => some .forIn | _ => none
+
+mutual
+partial def readS (items : List String) : Option (S × List String) :=
+  match items with
+  | [] => none
+  | h :: r =>
+    match h.splitOn "." with
+    | ["expr"] => some (.expr, r)
+    | ["brk"] => some (.brk none, r)
+    | ["brk", l] => l.toNat?.map fun l => (.brk (some l), r)
+    | ["cont"] => some (.cont none, r)
+    | ["cont", l] => l.toNat?.map fun l => (.cont (some l), r)
+    | ["ret"] => some (.ret, r)
+    | ["block", n] => do let n ← n.toNat?; let (b, r) ← readSL n r; pure (.block b, r)
+    | ["if1"] => do let (t, r) ← readS r; pure (.if1 t, r)
+    | ["if2"] => do let (t, r) ← readS r; let (e, r) ← readS r; pure (.if2 t e, r)
+    | ["loop", k] => do let k ← loopKind? k; let (b, r) ← readS r; pure (.loop k b, r)
+    | ["switch", n] => do let n ← n.toNat?; let (b, r) ← readSL n r; pure (.switch b, r)
+    | ["try", nb, nc, nf] => do
+      let nb ← nb.toNat?
+      let (b, r) ← readSL nb r
+      let (c, r) ← (if nc = "x" then some (none, r) else do let n ← nc.toNat?; let (x, r) ← readSL n r; pure (some x, r))
+      let (f, r) ← (if nf = "x" then some (none, r) else do let n ← nf.toNat?; let (x, r) ← readSL n r; pure (some x, r))
+      pure (.try_ b c f, r)
+    | ["with"] => do let (b, r) ← readS r; pure (.with_ b, r)
+    | ["label", l] => do let l ← l.toNat?; let (s, r) ← readS r; pure (.label l s, r)
+    | ["fn", n] => do let n ← n.toNat?; let (b, r) ← readSL n r; pure (.fn b, r)
+    | _ => none
+partial def readSL (n : Nat) (items : List String) : Option (SL × List String) :=
+  if n = 0 then some (.nil, items) else do
+    let (s, r) ← readS items
+    let (t, r) ← readSL (n - 1) r
+    pure (.cons s t, r)
+end
+
+def verdict (b : Bool) : String := if b then "accept" else "reject"
+
+/-- the request is a whole program: a statement list in the empty (global) context -/
+def handle2 (ws : List String) : String :=
+  match ws with
+  | [n, tree] =>
+    match n.toNat?.bind fun n => readSL n (tree.splitOn ",") with
+    | some (prog, []) =>
+      verdict (acceptsL {} prog) ++ " " ++ verdict (Spec.earlyOKL {} prog) ++ " " ++
+        (if Spec.devContL {} prog then "continue_non_iteration_label" else "-")
+    | _ => "bad-request bad-request -"
   | _ => "bad-request bad-request -"
 
 end OttoVerif.C04.Early
